@@ -58,11 +58,11 @@ theorem unsafe_invalidates (cfg : Cfg) (t0 : Int) (req : Req) (tr : List Step) (
 theorem same_origin_location_invalidated (cfg : Cfg) (req : Req) (respH : Header) (hdr : Str) (deleted : List Str)
     (cont : List Str → Prog) (tr : List Step) (r : Result) (g : LocGlue)
     (hne : (Header.get respH hdr).isEmpty = false) (hg : cfg.loc hdr = some g)
-    (hs : sameOrigin req.scheme req.host g.scheme g.host = true)
+    (hs : sameOrigin req.scheme req.host (resolveLoc req g).scheme (resolveLoc req g).host = true)
     (h : Run (invalidateLocation cfg req respH hdr deleted cont) tr r) :
-    ∃ a tr', tr = Step.getRefs g.key a :: tr' ∧
+    ∃ a tr', tr = Step.getRefs (resolveLoc req g).key a :: tr' ∧
       ∃ tr1 tr2 d, tr' = tr1 ++ tr2 ∧ Run (cont d) tr2 r ∧
-        g.key ∈ d ∧ (∀ ref ∈ a.getD [], ref.id ∈ d) ∧
+        (resolveLoc req g).key ∈ d ∧ (∀ ref ∈ a.getD [], ref.id ∈ d) ∧
         (∀ x ∈ d, x ∈ deleted ∨ Step.delete x ∈ tr1) :=
   invalidateLocation_same cfg req respH hdr deleted cont tr r g hne hg hs h
 
